@@ -36,6 +36,30 @@ Proof.
     rewrite N.eqb_refl, ?all_eq_RS_refl; reflexivity.
 Qed.
 
+(* ---------- __hash__ is consistent with __eq__ ---------- *)
+Lemma all_eq_map_hash {T} (S : Scalar T) (h : T -> Z) :
+  (forall x y, seqb S x y = true -> h x = h y) ->
+  forall a b, all_eq S a b = true -> map h a = map h b.
+Proof.
+  intros Hh. unfold all_eq. induction a as [|x a IH]; intros [|y b] H; cbn [list_eqb] in H; try discriminate; [reflexivity|].
+  apply andb_true_iff in H. destruct H as [Hx Hr]. cbn [map]. rewrite (Hh _ _ Hx), (IH _ Hr). reflexivity.
+Qed.
+
+Theorem desc_hash_consistent {T} (S : Scalar T) (h : T -> Z) (mix : list Z -> Z) :
+  (forall x y, seqb S x y = true -> h x = h y) ->
+  forall a b, desc_eqb S a b = true -> desc_hash h mix a = desc_hash h mix b.
+Proof.
+  intros Hh [ta pa tra] [tb pb trb]. unfold desc_eqb, desc_hash. cbn [dtype dparams dtrans].
+  destruct tra as [[t1 r1]|], trb as [[t2 r2]|]; intros H; try discriminate.
+  2: { rewrite andb_false_r in H. discriminate. }
+  - repeat (apply andb_true_iff in H; destruct H as [H ?]).
+    apply N.eqb_eq in H. subst.
+    rewrite (all_eq_map_hash S h Hh _ _ H0), (all_eq_map_hash S h Hh _ _ H1), (all_eq_map_hash S h Hh _ _ H2). reflexivity.
+  - apply andb_true_iff in H; destruct H as [H _].
+    apply andb_true_iff in H; destruct H as [H H0].
+    apply N.eqb_eq in H. subst. rewrite (all_eq_map_hash S h Hh _ _ H0). reflexivity.
+Qed.
+
 (* ---------- sorting by key ---------- *)
 Lemma insert_sorted_perm {V} (x : Z * V) l : Permutation (x :: l) (insert_sorted x l).
 Proof.
